@@ -279,15 +279,16 @@ void drive(const Plan &p, uint64_t salt, int exhaustive_level, size_t eps, bool 
     int reps = quick ? 1 : 4;
     for (int rep = 0; rep < reps; ++rep)
         for (auto &kind : kinds)
-            for (int where = 0; where < 5; ++where) {
-                if (small_type && where >= 3) continue;
+            for (int where = 0; where < 6; ++where) {
+                if (small_type && (where == 3 || where == 4)) continue;
                 size_t nmax = quick ? 300 : 3000;
-                size_t n = where >= 3 ? 20 + rng.below(nmax) : 1 + rng.below(rng.chance(1, 3) ? 12 : nmax);
+                size_t n = where >= 3 ? (small_type ? 8 + rng.below(120) : 20 + rng.below(nmax)) : 1 + rng.below(rng.chance(1, 3) ? 12 : nmax);
                 VPlan pl{kind, n, where, {kind}, rng.next(), {}};
                 if (where == 1) pl.tags.push_back("at_lowest");
                 if (where == 2) pl.tags.push_back("ends_at_max-1");
                 if (where == 3) pl.tags.push_back("wide");
                 if (where == 4) pl.tags.push_back("clustered");
+                if (where == 5) pl.tags.push_back("full_span");
                 run(pl);
             }
 }
